@@ -170,7 +170,14 @@ func genProgCase(o gen.ProgOpt, extra []ref.FunSig) func(t *rapid.T) *ProgCase {
 	return func(t *rapid.T) *ProgCase {
 		g := gen.NewG(t, o)
 		want := g.AnyResultType()
-		e := g.Expr(want)
+		var e *m.Expr
+		if o.Harness && rapid.IntRange(0, 3).Draw(t, "traced") == 0 {
+			// every operand position reports to the host function tr: the order of evaluation is observable
+			e = g.ExprTraced(want)
+			g.Stats["every-operand-traced"]++
+		} else {
+			e = g.Expr(want)
+		}
 		pc := &ProgCase{E: e, Env: g.Env, Vals: g.Vals, Extra: extra, Stats: g.Stats}
 		if o.Sugar && rapid.IntRange(0, 3).Draw(t, "printopt") == 0 {
 			pc.Print = m.PrintOpt{Tight: rapid.Bool().Draw(t, "tight"), TrailingComma: rapid.Bool().Draw(t, "trailing")}
